@@ -3,7 +3,7 @@ import random
 
 from exv.core import Report, run_cases
 from exv.scen import flushvec_of
-from exv.sysscen import child, gen_script, gen_race_script, gen_lag_script, gen_unconfirm_script, gen_subscribe_race_script
+from exv.sysscen import child, gen_script, gen_race_script, gen_lag_script, gen_unconfirm_script, gen_subscribe_race_script, gen_nobody_connected_script
 
 PID = 'C07'
 
@@ -64,6 +64,14 @@ def gen_cases(tier, seed, judge=('C07',), n=None, queries=False, longpark_in_qui
                           'policy': rng.choice(('random', 'lazy', 'eager')), 'p': 0.3, 'latency': None, 'txindex': j % 2 == 0,
                           'prefetch': 100, 'n0': rng.choice((10, 14)), 'colls': 0, 'longpark': rng.choice((0.5, 0.7)), 'reorg_limit': 5,
                           'family': 'subscribe-race', 'hold_requests_only': j % 2 == 0})
+    if 'C10' in judge:
+        # the chain changes while no session is connected; cached answers must not survive it
+        for j in range(12 if tier == 'quick' else 150):
+            nclients, nscripts = rng.choice((1, 2)), 4
+            cases.append({'seed': rng.randrange(1 << 30), 'nclients': nclients, 'nscripts': nscripts, 'judge': list(judge),
+                          'script': gen_nobody_connected_script(rng, nclients, nscripts), 'flushkind': 'none', 'flushvec': None,
+                          'policy': rng.choice(('random', 'lazy', 'eager')), 'p': 0.3, 'latency': None, 'txindex': j % 2 == 0,
+                          'prefetch': 100, 'n0': rng.choice((10, 14)), 'colls': 0, 'longpark': None, 'reorg_limit': 5, 'family': 'nobody-connected'})
     if 'C10' in judge or 'C11' in judge:
         # reads in flight while blocks are undone: queries right before a chain change, read jobs held at their end
         for j in range(24 if tier == 'quick' else 300):
@@ -71,7 +79,8 @@ def gen_cases(tier, seed, judge=('C07',), n=None, queries=False, longpark_in_qui
             cases.append({'seed': rng.randrange(1 << 30), 'nclients': nclients, 'nscripts': nscripts, 'judge': list(judge),
                           'script': gen_race_script(rng, rng.randrange(3, 6), nclients, nscripts), 'flushkind': 'none', 'flushvec': None,
                           'policy': rng.choice(('random', 'lazy')), 'p': 0.3, 'latency': None, 'txindex': j % 2 == 0, 'prefetch': 100,
-                          'n0': rng.choice((12, 20)), 'colls': 0, 'longpark': rng.choice((0.5, 0.8)), 'reorg_limit': 5})
+                          'n0': rng.choice((12, 20)), 'colls': 0, 'longpark': rng.choice((0.5, 0.8)), 'reorg_limit': 5,
+                          'query_at_backup': j % 3 == 0})
     return cases
 
 
